@@ -12,3 +12,7 @@ import ThriftVerif.Props.C03
 #print axioms Props.C03.annotations_append
 #print axioms Props.C03.annotations_keys_first_occurrence
 #print axioms Props.C03.literal_unescape
+#print axioms Props.C03.quote_kind_independent
+#print axioms Props.C03.skip_absorbs_ws
+#print axioms Props.C03.list_separator_ignored
+#print axioms Props.C03.skip_nodes_ignored
